@@ -61,6 +61,8 @@ def _match(s, i, o="{", c="}"):
 
 def _norm(text):
     text = text.replace("[[maybe_unused]]", " ")
+    text = re.sub(r"\bthis\s*->\s*", "", text)
+    text = re.sub(r"\(\s*\*\s*this\s*\)\s*\.\s*", "", text)
     text = re.sub(r"std\s*::\s*min\s*<[^<>]*>", "std::min", text)
     text = re.sub(r"std\s*::\s*max\s*<[^<>]*>", "std::max", text)
     text = re.sub(r"static_cast\s*<[^<>()]*>", " ", text)
@@ -147,8 +149,49 @@ _TYPES = {"int", "std::size_t", "size_t", "bool", "auto", "unsigned", "long", "s
 
 
 class _P:
-    def __init__(self, toks):
+    def __init__(self, toks, general_decl=False):
         self.t, self.i = toks, 0
+        self.general_decl = general_decl
+
+    def _try_general_decl(self, j):
+        """`[const] Type[<..>][::name]* [const] [&|*] name` followed by `=`, `(` or `;` starting at token j ->
+        (name, index of the token after the name, is it a reference/pointer?) or None"""
+        t = self.t
+
+        def tok(k):
+            return t[k] if k < len(t) else ("eof", None)
+        if tok(j)[0] != "id" or tok(j)[1] in ("return", "if", "while", "for", "else", "break", "do", "delete", "new", "throw"):
+            return None
+        k = j + 1
+        if tok(k) == ("op", "<"):
+            depth = 0
+            while True:
+                if tok(k)[0] == "eof" or tok(k) in (("op", ";"), ("op", "{"), ("op", "}")):
+                    return None
+                if tok(k) == ("op", "<"):
+                    depth += 1
+                elif tok(k) == ("op", ">"):
+                    depth -= 1
+                    if depth == 0:
+                        break
+                k += 1
+            k += 1
+            while tok(k) == ("op", ":") and tok(k + 1) == ("op", ":") and tok(k + 2)[0] == "id":
+                k += 3
+        ref = False
+        while tok(k) in (("id", "const"), ("op", "&"), ("op", "*")):
+            ref = ref or tok(k)[0] == "op"
+            k += 1
+        if tok(k)[0] != "id" or k == j + 1 and False:
+            return None
+        if k == j:
+            return None
+        name = tok(k)[1]
+        if tok(k + 1) not in (("op", "="), ("op", "("), ("op", ";")) or "::" in name:
+            return None
+        if k == j + 1 or ref or tok(j + 1) == ("op", "<"):
+            return name, k + 1, ref
+        return None
 
     def peek(self, k=0):
         return self.t[self.i + k] if self.i + k < len(self.t) else ("eof", None)
@@ -325,11 +368,24 @@ class _P:
                 init = self.expr()
                 self.eat(")")
             return ("decl", name, init)
+        if self.general_decl:
+            g = self._try_general_decl(j)
+            if g is not None:
+                name, self.i, ref = g
+                init = None
+                if self.isop("="):
+                    self.i += 1
+                    init = self.expr()
+                elif self.isop("("):
+                    self.i += 1
+                    init = self.expr()
+                    self.eat(")")
+                return ("decl", name, init, ref)
         return ("expr", self.expr())
 
 
-def _parse_body(text):
-    p = _P(_tokens(text))
+def _parse_body(text, general_decl=False):
+    p = _P(_tokens(text), general_decl)
     items = p.block_items()
     if p.peek()[0] != "eof":
         raise TranslateError("trailing tokens in function body")
@@ -451,20 +507,43 @@ def _minmax(name):
     return f
 
 
-_STD = {"std::min": _minmax("min"), "std::max": _minmax("max"), "min": _minmax("min"), "max": _minmax("max")}
+def _cast(args):
+    """functional cast to an integral type `std::size_t(x)`, `int(x)` (values are read as naturals without wrap-around)"""
+    if len(args) != 1:
+        raise TranslateError("cast with %d arguments" % len(args))
+    return (nat(args[0]), "nat")
+
+
+_STD = {"std::min": _minmax("min"), "std::max": _minmax("max"), "min": _minmax("min"), "max": _minmax("max"),
+        "std::size_t": _cast, "size_t": _cast, "int": _cast, "unsigned": _cast, "long": _cast, "std::ptrdiff_t": _cast}
 
 
 def _leaf(body, env, what):
-    """`[T x = e;]* return e;` -> converted e"""
+    """`[T x = e;]* return e;` -> converted e.  `if(c) return a; [else] return b;` is read as `return c ? a : b;`"""
     env = env.child()
     st = [s for s in _parse_body(body) if not _is_assert(s)]
-    for s in st[:-1]:
-        if s[0] != "decl" or s[2] is None:
-            raise TranslateError("%s: only declarations may precede the return" % what)
+    i = 0
+    while i < len(st) and st[i][0] == "decl":
+        s = st[i]
+        if s[2] is None or len(s) > 3:
+            raise TranslateError("%s: only initialised value declarations may precede the return" % what)
+        if s[1] in env.atoms or any(_mods(r, s[1]) for r in st[i + 1:]):
+            raise TranslateError("%s: local '%s' shadows a name or is modified" % (what, s[1]))
         env.atoms[s[1]] = conv(s[2], env)
-    if not st or st[-1][0] != "return" or st[-1][1] is None:
-        raise TranslateError("%s: body does not end in `return <expr>;`" % what)
-    return conv(st[-1][1], env)
+        i += 1
+
+    def tail(rest):
+        if not rest:
+            raise TranslateError("%s: body does not end in `return <expr>;`" % what)
+        s = rest[0]
+        if s[0] == "return" and s[1] is not None:
+            return s[1]
+        if s[0] == "if":
+            th = [x for x in _unblock(s[2]) if not _is_assert(x)]
+            el = [x for x in _unblock(s[3]) if not _is_assert(x)] if s[3] is not None else []
+            return ("cond", s[1], tail(th), tail(el if _returns(el) else el + rest[1:]))
+        raise TranslateError("%s: only declarations may precede the return" % what)
+    return conv(tail(st[i:]), env)
 
 
 def _inc_of(e, var):
@@ -547,6 +626,8 @@ def _message_buffer(src, out):
 
 def _tracker_env():
     return Env({"index_": ("index", "nat"), "interface_.size()": ("ifaceSize", "nat"),
+                "interface_.empty()": ("(decide (ifaceSize = 0))", "bool"),
+                "sizes_.empty()": ("(decide (sizesSize = 0))", "bool"),
                 "sizes_.size()": ("sizesSize", "nat"), "size()": ("sizeHere", "nat"),
                 "finished()": ("(trackerFinished index ifaceSize)", "bool"),
                 "empty()": ("(trackerEmpty ifaceSize)", "bool"),
@@ -557,6 +638,7 @@ def _tracker_env():
 def _interface_tracker(src, out):
     cls, _ = _region(src, r"class\s+InterfaceTracker\b[^;{]*\{", "class InterfaceTracker")
     env = _tracker_env()
+    defs = []
     for cname, lname, sig, ty in (("finished", "trackerFinished", "(index ifaceSize : Nat) : Bool", "bool"),
                                   ("empty", "trackerEmpty", "(ifaceSize : Nat) : Bool", "bool"),
                                   ("indicesLeft", "indicesLeft", "(index ifaceSize : Nat) : Nat", "nat"),
@@ -568,11 +650,25 @@ def _interface_tracker(src, out):
                 del e.atoms[a]
         if cname in ("empty",):
             del e.atoms["index_"]
+            for a in ("finished()", "indicesLeft()", "offset()"):    # they need index_, which empty() does not have
+                e.atoms.pop(a, None)
         if cname == "offset":
             del e.atoms["interface_.size()"]
+            del e.atoms["interface_.empty()"]
+            for a in ("finished()", "indicesLeft()", "empty()"):
+                e.atoms.pop(a, None)
         r = _leaf(body, e, "InterfaceTracker::" + cname)
-        out.append("/-- `InterfaceTracker::%s` -/" % cname)
-        out.append("def %s %s := %s" % (lname, sig, boo(r) if ty == "bool" else nat(r)))
+        text = boo(r) if ty == "bool" else nat(r)
+        defs.append((lname, ["/-- `InterfaceTracker::%s` -/" % cname, "def %s %s := %s" % (lname, sig, text)], text))
+    # one accessor may be written through another one: emit them in dependency order (a cycle is an error)
+    done = []
+    while defs:
+        ready = [d for d in defs if not any(re.search(r"\b%s\b" % o[0], d[2]) for o in defs if o is not d)]
+        if not ready:
+            raise TranslateError("InterfaceTracker: accessors defined through each other")
+        for d in ready:
+            out.extend(d[1])
+            defs.remove(d)
     # index() / size(): shape
     ps, body = _member(cls, "index", "InterfaceTracker::index")
     st = [s for s in _parse_body(body) if not _is_assert(s)]
@@ -585,6 +681,8 @@ def _interface_tracker(src, out):
     # skipZeroIndices
     ps, body = _member(cls, "skipZeroIndices", "InterfaceTracker::skipZeroIndices")
     st = [s for s in _parse_body(body) if not _is_assert(s)]
+    if len(st) == 1 and st[0][0] == "for" and st[0][1] is None and st[0][2] is not None:
+        st = [("while", st[0][2], ("block", _unblock(st[0][4]) + ([("expr", st[0][3])] if st[0][3] is not None else [])))]
     if len(st) != 1 or st[0][0] != "while":
         raise TranslateError("skipZeroIndices: a single while loop expected")
     inner = [s for s in _unblock(st[0][2]) if not _is_assert(s)]
@@ -610,6 +708,9 @@ def _interface_tracker(src, out):
                 lines.append("  let t := Tracker.increment t %s" % nat(conv(_inc_of(s[1], "index_"), penv)))
             elif s[0] == "expr" and key(s[1]) == "skipZeroIndices()":
                 lines.append("  let t := skipZeroIndices t")
+            elif s[0] == "expr" and s[1][0] == "call" and key(s[1][1]) == "increment" and len(s[1][2]) == 1 \
+                    and cname != "increment":
+                lines.append("  let t := increment t %s" % nat(conv(s[1][2][0], penv)))
             else:
                 raise TranslateError("InterfaceTracker::%s: statement outside the grammar: %s" %
                                      (cname, key(s[1]) if s[0] == "expr" else s[0]))
@@ -619,8 +720,8 @@ def _interface_tracker(src, out):
         out.append("def %s (t : Tracker)%s : Tracker :=" % (lname, "".join(" (%s : Nat)" % x for x in extra)))
         out.extend(lines)
         out.append("  t")
-    tracker_seq("moveToNextIndex", "moveToNextIndex", [])
     tracker_seq("increment", "increment", ["i"])
+    tracker_seq("moveToNextIndex", "moveToNextIndex", [])
 
 
 # ------------------------------------------------------------------------------------------------------------------
@@ -632,6 +733,49 @@ class Ctx:
         self.n = 0
         self.acc = None
         self.lets = {}
+        self.struct = None   # text of the enclosing struct: other member functions may be called as helpers
+        self.depth = 0
+
+    def helper(self, e, as_statement):
+        """`name(a, b, ..)` with `name` another member function of the same struct and plain identifiers as arguments ->
+        the statements of its body with the parameters renamed to the arguments (the call is inlined); else None.
+        A helper that assigns to one of its parameters is outside the grammar (by-value copies are not modelled)."""
+        if self.struct is None or e[0] != "call" or e[1][0] != "id" or "::" in e[1][1]:
+            return None
+        name = e[1][1]
+        if name in ("assert",) or not re.search(r"(?<![\w~])" + re.escape(name) + r"\s*\(", self.struct):
+            return None
+        try:
+            ps, body = _member(self.struct, re.escape(name), self.prefix + ": helper " + name)
+        except TranslateError:
+            return None
+        if self.depth > 3:
+            raise TranslateError("%s: helper calls nested too deeply" % self.prefix)
+        if len(ps) != len(e[2]) or any(a[0] != "id" for a in e[2]):
+            raise TranslateError("%s: helper %s is not called with plain names" % (self.prefix, name))
+        st = _parse_body(body)
+        for p_ in ps:
+            if any(_mods(x, p_) for x in st):
+                raise TranslateError("%s: helper %s modifies its parameter '%s'" % (self.prefix, name, p_))
+        ren = {p_: a for p_, a in zip(ps, e[2])}
+        if len(set(ps)) != len(ps):
+            raise TranslateError("%s: helper %s repeats a parameter name" % (self.prefix, name))
+
+        def sub(x):
+            if isinstance(x, tuple):
+                if len(x) == 2 and x[0] == "id" and x[1] in ren:
+                    return ren[x[1]]
+                return tuple(sub(y) for y in x)
+            if isinstance(x, list):
+                return [sub(y) for y in x]
+            return x
+        st = [sub(x) for x in st]
+        for x in st:
+            if x[0] == "decl" and any(x[1] == a[1] for a in e[2]):
+                raise TranslateError("%s: helper %s declares a local named like an argument" % (self.prefix, name))
+        if as_statement and "'return'" in repr(st):
+            raise TranslateError("%s: helper %s with a return statement is called as a statement" % (self.prefix, name))
+        return st
 
     def env(self):
         T, B, H = self.T, self.B, self.H
@@ -699,12 +843,27 @@ def _decl_local(s, ctx, env, later):
     return "v_" + name, conv(s[2], env)
 
 
+def _inline_helpers(stmts, ctx):
+    """expression statements that call a helper member function are replaced by the helper's statements"""
+    out = []
+    for s in stmts:
+        h = ctx.helper(s[1], True) if s[0] == "expr" else None
+        if h is None:
+            out.append(s)
+        else:
+            ctx.depth += 1
+            out.extend(_inline_helpers([x for x in _flat(h) if not _is_assert(x)], ctx))
+            ctx.depth -= 1
+    return out
+
+
 def _aux_body(stmts, ctx):
     """statements of a loop body -> (Lean lambda over the loop state, in-bounds predicate).  Locals of the enclosing
     function are captured by the lambda with the value they had when they were declared (they are Lean `let`s)."""
     ctx.n += 1
     env = ctx.env()
     parts = []
+    stmts = _inline_helpers(stmts, ctx)
     for i, s in enumerate(stmts):
         if s[0] == "decl":
             nm, v = _decl_local(s, ctx, env, stmts[i + 1:])
@@ -898,8 +1057,25 @@ def _seq(stmts, ctx, lines, ind, ret):
     same Lean term up to dead code)."""
     for i, s in enumerate(stmts):
         if s[0] == "return":
+            h = ctx.helper(s[1], False) if s[1] is not None else None
+            if h is not None:      # `return helper(a, b, c);`: the helper's body ends the function
+                saved = (dict(ctx.lets), ctx.acc)
+                ctx.depth += 1
+                r = _seq(_flat(h), ctx, lines, ind, ret)
+                ctx.depth -= 1
+                ctx.lets, ctx.acc = saved
+                if not r:
+                    raise TranslateError("%s: helper without return" % ctx.prefix)
+                return True
             lines.append(ind + ret(s[1], ctx.env()))
             return True
+        if s[0] == "expr":
+            h = ctx.helper(s[1], True)
+            if h is not None:
+                ctx.depth += 1
+                r = _seq(_flat(h) + stmts[i + 1:], ctx, lines, ind, ret)
+                ctx.depth -= 1
+                return r
         if s[0] == "if":
             rest = stmts[i + 1:]
             th = _unblock(s[2])
@@ -949,8 +1125,12 @@ def _mods(stmt, var):
     return bool(found)
 
 
+_STRUCTS = {}
+
+
 def _functor(src, name, what, nparams):
     body, _ = _region(src, r"struct\s+" + name + r"\b[^;{]*\{", "struct " + name)
+    _STRUCTS[name] = body
 
     def real(f):
         return not re.fullmatch(r"\s*return\s+operator\s*\(\s*\)\s*\([^;]*\)\s*;\s*", f[1])
@@ -964,6 +1144,7 @@ def _pack_unpack(src, out):
     # PackEntries
     ps, body = _functor(src, "PackEntries", "PackEntries::operator()", 3)
     ctx = Ctx("packEntries", ps[0], ps[1], ps[2])
+    ctx.struct = _STRUCTS["PackEntries"]
     lines = []
 
     def ret_pack(e, env):
@@ -982,6 +1163,7 @@ def _pack_unpack(src, out):
     # UnpackEntries
     ps, body = _functor(src, "UnpackEntries", "UnpackEntries::operator()", 3)
     ctx = Ctx("unpackEntries", ps[0], ps[1], ps[2], ps[3] if len(ps) > 3 else None)
+    ctx.struct = _STRUCTS["UnpackEntries"]
     lines = []
 
     def ret_unpack(e, env):
@@ -1023,6 +1205,15 @@ def _pack_unpack(src, out):
                 raise TranslateError("UnpackSizeEntries: destination outside the grammar")
             lines.append("  let dst := writeAt dst %s (b.cells.take %s)" % (nat(conv(a2[3], env)), n))
             copied = True
+        elif s[0] == "expr" and s[1][0] == "call" and key(s[1][1]) == "std::copy_n" and len(s[1][2]) == 3:
+            a0, a1, a2 = s[1][2]
+            if key(a0) != "(" + B + ")" and key(a0) != B:
+                raise TranslateError("UnpackSizeEntries: std::copy_n does not start at the buffer")
+            n = nat(conv(a1, env))
+            if a2[0] != "bin" or a2[1] != "+" or key(a2[2]) != H + ".getSizesPointer()":
+                raise TranslateError("UnpackSizeEntries: destination outside the grammar")
+            lines.append("  let dst := writeAt dst %s (b.cells.take %s)" % (nat(conv(a2[3], env)), n))
+            copied = True
         elif s[0] == "expr" and s[1][0] == "call" and key(s[1][1]) == T + ".increment" and len(s[1][2]) == 1:
             lines.append("  let t := increment t %s" % nat(conv(s[1][2][0], env)))
             env.atoms[T + ".indicesLeft()"] = ("(indicesLeft t.index t.ifaceSize)", "nat")
@@ -1031,7 +1222,7 @@ def _pack_unpack(src, out):
         else:
             raise TranslateError("UnpackSizeEntries: statement outside the grammar")
     if not copied:
-        raise TranslateError("UnpackSizeEntries: no std::copy")
+        raise TranslateError("UnpackSizeEntries: no std::copy / std::copy_n")
     out.append("/-- `UnpackSizeEntries::operator()`; `dst` = the size array `getSizesPointer()` points to -/")
     out.append("def unpackSizeEntries (t : Tracker) (b : MessageBuffer Nat) (dst : List Nat) : Tracker × List Nat :=")
     out.extend(lines)
@@ -1051,11 +1242,23 @@ def _tag(e, what):
     return e[1]
 
 
+def _tail_guard(st):
+    """`..; if(c) return; S;` at the end of a void function  ->  `..; if(!c) S;`  (also `if(c) {} else S;`)"""
+    if len(st) >= 2 and st[-2][0] == "if" and st[-2][3] is None and _unblock(st[-2][2]) == [("return", None)] \
+            and st[-1][0] == "expr":
+        return st[:-2] + [("if", ("un", "!", st[-2][1]), st[-1], None)]
+    if st and st[-1][0] == "if" and st[-1][3] is not None and _unblock(st[-1][2]) == []:
+        return st[:-1] + [("if", ("un", "!", st[-1][1]), st[-1][3], None)]
+    if st and st[-1][0] == "if" and st[-1][3] is not None and _unblock(st[-1][3]) in ([], [("return", None)]):
+        return st[:-1] + [("if", st[-1][1], st[-1][2], None)]
+    return st
+
+
 def _setup(src, out, consts):
     # SetupSendRequest
     ps, body = _functor(src, "SetupSendRequest", "SetupSendRequest::operator()", 4)
     ctx = Ctx("setupSend", ps[0], ps[1], ps[2])
-    st = _parse_body(body)
+    st = _tail_guard(_parse_body(body))
     lines = []
     final = None
     size_var = None
@@ -1096,7 +1299,7 @@ def _setup(src, out, consts):
     # SetupRecvRequest
     ps, body = _functor(src, "SetupRecvRequest", "SetupRecvRequest::operator()", 4)
     ctx = Ctx("setupRecv", None, ps[1], ps[2], tv="β")
-    st = _parse_body(body)
+    st = _tail_guard(_parse_body(body))
     lines = []
     if not st or st[-1][0] != "if" or st[-1][3] is not None:
         raise TranslateError("SetupRecvRequest: final `if(..) MPI_Irecv(..)` expected")
@@ -1242,22 +1445,68 @@ def _directions(src, out):
     body, m = _region(src, r"VariableSizeCommunicator\s*<\s*Allocator\s*>\s*::\s*setupInterfaceTrackers\s*\(([^)]*)\)\s*\{", "setupInterfaceTrackers")
     ps = _params(m.group(1))
     H = ps[0]
+    # a local name for the chooser type
+    for mm in list(re.finditer(r"typedef\s+(?:typename\s+)?(InterfaceInformationChooser\s*<\s*\w+\s*>)\s+(\w+)\s*;", body)) + \
+            list(re.finditer(r"using\s+(\w+)\s*=\s*(?:typename\s+)?(InterfaceInformationChooser\s*<\s*\w+\s*>)\s*;", body)):
+        a_, b_ = mm.group(1), mm.group(2)
+        full, nm = (a_, b_) if a_.startswith("Interface") else (b_, a_)
+        body = body.replace(mm.group(0), " ")
+        body = re.sub(r"\b%s\s*::" % re.escape(nm), full + "::", body)
     body = re.sub(r"typedef[^;]*;", " ", body)
-    body = re.sub(r"InterfaceInformationChooser\s*<\s*\w+\s*>\s*::\s*getSend\s*\(\s*\w+\s*->\s*second\s*\)", "SENDLIST", body)
-    body = re.sub(r"InterfaceInformationChooser\s*<\s*\w+\s*>\s*::\s*getReceive\s*\(\s*\w+\s*->\s*second\s*\)", "RECVLIST", body)
-    body = re.sub(r"Impl\s*::\s*callFixedSize\s*\(\s*" + re.escape(H) + r"\s*\)", "FIXED", body)
-    body = re.sub(r"\b\w+\s*\.\s*reserve\s*\([^;]*;", " ", body)
+    body = re.sub(r"\busing\s+\w+\s*=[^;]*;", " ", body)
     fm = re.search(r"\bfor\s*\(", body)
     if not fm:
         raise TranslateError("setupInterfaceTrackers: loop over the interface map not found")
     j = _match(body, fm.end() - 1, "(", ")")
     head = body[fm.end():j]
-    if not re.search(r"interface_\s*->\s*begin\s*\(\s*\)", head) or not re.search(r"interface_\s*->\s*end\s*\(\s*\)", head):
-        raise TranslateError("setupInterfaceTrackers: the loop does not run over the whole interface map")
-    it = re.search(r"(\w+)\s*=\s*interface_\s*->\s*begin", head).group(1)
+    rf = re.fullmatch(r"\s*(?:const\s+)?[\w:<>\s]+?(?:const\s*)?&\s*(\w+)\s*:\s*\*\s*interface_\s*", head)
+    if rf:
+        it = rf.group(1)      # for(const auto& x : *interface_): every entry once, in map order
+    else:
+        hp = _split_semi(head)
+        mi = re.search(r"(\w+)\s*=\s*interface_\s*->\s*c?begin\s*\(\s*\)", hp[0]) if len(hp) == 3 else None
+        if not mi:
+            raise TranslateError("setupInterfaceTrackers: the loop does not run over the whole interface map")
+        it = mi.group(1)
+        ends = {"interface_->end()", "interface_->cend()"}
+        for mm in re.finditer(r"(\w+)\s*=\s*interface_\s*->\s*c?end\s*\(\s*\)", hp[0]):
+            ends.add(mm.group(1))
+        cnd = re.sub(r"\s+", "", hp[1])
+        stp = re.sub(r"\s+", "", hp[2])
+        if cnd not in {it + "!=" + e for e in ends} | {e + "!=" + it for e in ends} or stp not in ("++" + it, it + "++"):
+            raise TranslateError("setupInterfaceTrackers: the loop does not run over the whole interface map")
+    acc = r"\b%s\s*(?:->|\.)\s*" % re.escape(it)
+    body = re.sub(r"InterfaceInformationChooser\s*<\s*\w+\s*>\s*::\s*getSend\s*\(\s*" + acc + r"second\s*\)", "SENDLIST", body)
+    body = re.sub(r"InterfaceInformationChooser\s*<\s*\w+\s*>\s*::\s*getReceive\s*\(\s*" + acc + r"second\s*\)", "RECVLIST", body)
+    body = re.sub(r"Impl\s*::\s*callFixedSize\s*\(\s*" + re.escape(H) + r"\s*\)", "FIXED", body)
+    body = re.sub(r"\b\w+\s*\.\s*reserve\s*\([^;]*;", " ", body)
+    fm = re.search(r"\bfor\s*\(", body)
+    j = _match(body, fm.end() - 1, "(", ")")
     k = body.index("{", j)
-    loop = _parse_body(_norm(body[k + 1:_match(body, k)]))
+    loop = _parse_body(_norm(body[k + 1:_match(body, k)]), general_decl=True)
+    if body[_match(body, k) + 1:].strip():
+        raise TranslateError("setupInterfaceTrackers: statements after the loop")
     pre = _parse_body(_norm(body[:fm.start()]))
+    # references / unmodified copies of the two index lists inside the loop body stand for the lists
+    def subst_id(x, name, ast):
+        if isinstance(x, tuple):
+            if x == ("id", name):
+                return ast
+            return tuple(subst_id(y, name, ast) for y in x)
+        if isinstance(x, list):
+            return [subst_id(y, name, ast) for y in x]
+        return x
+    body_st = []
+    for q, x in enumerate(loop):
+        if x[0] == "decl" and len(x) > 3:
+            if x[2] is None or key(x[2]) not in ("SENDLIST", "RECVLIST"):
+                raise TranslateError("setupInterfaceTrackers: local '%s' outside the grammar" % x[1])
+            if any(_mods(y, x[1]) for y in loop[q + 1:]):
+                raise TranslateError("setupInterfaceTrackers: local '%s' is modified" % x[1])
+            loop = loop[:q + 1] + [subst_id(y, x[1], x[2]) for y in loop[q + 1:]]
+            continue
+        body_st.append(loop[q])
+    loop = body_st
     var = None
 
     def upd(e, env):
@@ -1291,21 +1540,46 @@ def _directions(src, out):
             else:
                 raise TranslateError("setupInterfaceTrackers: statement outside the grammar (%s)" % s[0])
     pushes = []
-    decl = [s for s in pre if s[0] == "decl"]
-    if len(decl) != 1 or decl[0][2] is None:
+    base = {"FIXED": ("fixed", "bool")}
+    lines = []
+    env0 = None
+    rest_pre = []
+    for q, d in enumerate(pre):
+        if d[0] != "decl":
+            if var is not None:
+                rest_pre.append(d)
+            elif not (d[0] == "if" and d[3] is None and _unblock(d[2]) == [("return", None)]) and not _is_assert(d):
+                raise TranslateError("setupInterfaceTrackers: statement before the carried fixed size is declared")
+            else:
+                rest_pre.append(d)
+            continue
+        if d[2] is None:
+            raise TranslateError("setupInterfaceTrackers: uninitialised local '%s'" % d[1])
+        if d[1] in base or d[1] == var:
+            raise TranslateError("setupInterfaceTrackers: local '%s' shadows another name" % d[1])
+        if any(_mods(y, d[1]) for y in pre[q + 1:] + loop):
+            if var is not None:
+                raise TranslateError("setupInterfaceTrackers: one local (the carried fixed size) expected")
+            var = d[1]
+            lines.append("  let fixedsize := " + nat(conv(d[2], Env(base, _STD))))
+            base[var] = ("fixedsize", "nat")
+        else:
+            if var is not None:
+                raise TranslateError("setupInterfaceTrackers: local '%s' declared after the carried fixed size" % d[1])
+            base[d[1]] = conv(d[2], Env(base, _STD))   # an unmodified local: its (state-free) value
+    if var is None:
         raise TranslateError("setupInterfaceTrackers: one local (the carried fixed size) expected")
-    var = decl[0][1]
-    env0 = Env({"FIXED": ("fixed", "bool"), var: ("fixedsize", "nat")}, _STD)
-    lines = ["  let fixedsize := " + nat(conv(decl[0][2], Env({"FIXED": ("fixed", "bool")}, _STD)))]
-    fold([s for s in pre if s[0] != "decl"], env0, lines)
+    env0 = Env(base, _STD)
+    fold(rest_pre, env0, lines)
     if pushes:
         raise TranslateError("setupInterfaceTrackers: tracker created outside the loop")
     out.append("/-- `setupInterfaceTrackers`: the value of the carried fixed size before the loop -/")
     out.append("def trackersInitFixed (fixed : Bool) : Nat :=")
     out.extend(lines)
     out.append("  fixedsize")
-    env1 = Env({"FIXED": ("fixed", "bool"), var: ("fixedsize", "nat"), "SENDLIST.size()": ("sendLen", "nat"),
-                "RECVLIST.size()": ("recvLen", "nat")}, _STD)
+    env1 = Env(dict(base, **{"SENDLIST.size()": ("sendLen", "nat"), "RECVLIST.size()": ("recvLen", "nat"),
+                              "SENDLIST.empty()": ("(decide (sendLen = 0))", "bool"),
+                              "RECVLIST.empty()": ("(decide (recvLen = 0))", "bool")}), _STD)
     env1.fns[H + ".size"] = lambda a: a[0]
     env1.atoms["SENDLIST[0]"] = ("sizeOfFirstSend", "nat")
     lines = []
@@ -1361,6 +1635,71 @@ def _size_handle(src, out):
     out.append("def sizeHandleGather (sizeOf : Nat → Nat) (i : Nat) : List Nat := [%s]" % ", ".join(items))
 
 
+def _completed_loop(head, idx, nc, n_names):
+    """header of the loop over the completed requests -> (forms of the request index, forms of the position in the
+    completed list, loop variable).  Accepted: an iterator running from idx.begin() to idx.end(), or an index running
+    from 0 to idx.size() (the bound may be a local initialised with idx.size() - but not the counter `nc`, which the body
+    decrements), both ascending in steps of one: the completed requests are visited once each, in the order MPI
+    reported them."""
+    parts = _split_semi(head)
+    if len(parts) != 3:
+        raise TranslateError("checkAndContinue: the loop does not run over all completed requests")
+    init, cond, step = [_norm(x) for x in parts]
+    inits = {}
+    first = True
+    for d in _split(init):
+        mm = re.fullmatch(r"\s*(?:[\w:<>\s]*?[\s&*>])?(\w+)\s*(?:=\s*(.*?)|\((.*)\))\s*", d, flags=re.S)
+        if not mm:
+            raise TranslateError("checkAndContinue: the loop does not run over all completed requests")
+        inits[mm.group(1)] = re.sub(r"\s+", "", mm.group(2) if mm.group(2) is not None else mm.group(3))
+    size_forms = {idx + ".size()"}
+    end_forms = {idx + ".end()", "std::end(%s)" % idx}
+    begin_forms = {idx + ".begin()", "std::begin(%s)" % idx}
+    for nm, v in list(inits.items()) + list(n_names.items()):
+        if v in size_forms:
+            size_forms.add(nm)
+        if v in end_forms:
+            end_forms.add(nm)
+    c = _P(_tokens(cond)).expr()
+    stp = _P(_tokens(step)).expr()
+    if c[0] != "bin":
+        raise TranslateError("checkAndContinue: the loop does not run over all completed requests")
+    if key(c[3]) in inits and key(c[2]) not in inits:
+        c = _flip(c)
+    v = key(c[2])
+    if v not in inits or _inc_of(stp, v) is None or key(_inc_of(stp, v)) != "1":
+        raise TranslateError("checkAndContinue: the loop does not run over all completed requests")
+    bound = key(c[3])
+    if inits[v] in begin_forms and c[1] in ("!=", "<") and bound in end_forms:
+        it = ("id", v)
+        elem = [(("un", "*", it), "ELEM")]
+        pos = [(("bin", "-", it, ("call", ("mem", ("id", idx), "begin"), [])), "POS"),
+               (("call", ("id", "std::distance"), [("call", ("mem", ("id", idx), "begin"), []), it]), "POS")]
+        return elem, pos, v
+    if inits[v] == "0" and c[1] in ("!=", "<") and bound in size_forms:
+        it = ("id", v)
+        elem = [(("idx", ("id", idx), it), "ELEM"), (("call", ("mem", ("id", idx), "at"), [it]), "ELEM")]
+        pos = [(it, "POS")]
+        return elem, pos, v
+    raise TranslateError("checkAndContinue: the loop does not run over all completed requests")
+
+
+def _split_semi(s):
+    out, depth, cur = [], 0, ""
+    for ch in s:
+        if ch in "([{":
+            depth += 1
+        elif ch in ")]}":
+            depth -= 1
+        if ch == ";" and depth == 0:
+            out.append(cur)
+            cur = ""
+        else:
+            cur += ch
+    out.append(cur)
+    return out
+
+
 def _check_and_continue(src, out):
     """the body of the loop over the completed requests in checkAndContinue -> Gen.checkAndContinueBody"""
     body, m = _region(src, r"std\s*::\s*size_t\s+checkAndContinue\s*\(([^)]*)\)\s*\{", "checkAndContinue")
@@ -1392,24 +1731,79 @@ def _check_and_continue(src, out):
         raise TranslateError("checkAndContinue: loop over the completed requests not found")
     f0 = j + fm.end() - 1
     f1 = _match(body, f0, "(", ")")
-    head = body[f0:f1]
-    mi = re.search(r"(\w+)\s*=\s*" + idx + r"\s*\.\s*begin\s*\(\s*\)", head)
-    if not mi or not re.search(idx + r"\s*\.\s*end\s*\(\s*\)", head):
-        raise TranslateError("checkAndContinue: the loop does not run over all completed requests")
-    IT = mi.group(1)
+    # locals declared between MPI_Testsome and the loop that hold the number of completed requests
+    n_names = {}
+    for mm in re.finditer(r"\b(?:const\s+)?[\w:]+\s+(?:const\s+)?(\w+)\s*=\s*([^;]*);", body[j:f0 - 3]):
+        n_names[mm.group(1)] = re.sub(r"\s+", "", mm.group(2))
+    elem, pos, IT = _completed_loop(body[f0 + 1:f1], idx, nc, n_names)
     k = body.index("{", f1)
     k1 = _match(body, k)
     loop = body[k + 1:k1]
     rest = [s for s in _parse_body(_norm(body[k1 + 1:]))]
     if len(rest) != 1 or rest[0][0] != "return" or key(rest[0][1]) != nc:
         raise TranslateError("checkAndContinue: does not return the number of completed requests")
-    mt = re.search(r"InterfaceTracker\s*&\s*(\w+)\s*=\s*(\w+)\s*\[\s*\*\s*(\w+)\s*\]\s*;", loop)
-    if not mt or mt.group(2) != TR or mt.group(3) != IT:
-        raise TranslateError("checkAndContinue: tracker is not %s[*%s]" % (TR, IT))
-    T = mt.group(1)
-    loop = loop[:mt.start()] + loop[mt.end():]
-    st = [x for x in _parse_body(_norm(loop)) if not _is_assert(x)]
-    sub = "*" + IT
+    for nm in n_names:
+        if re.search(r"\b%s\b" % nm, loop) and nm != IT:
+            raise TranslateError("checkAndContinue: the loop body uses the local '%s'" % nm)
+    raw = _parse_body(_norm(loop), general_decl=True)
+    # the loop position and the request index under canonical names; local aliases (references, unmodified copies)
+    # of them and of trackers[ELEM], buffers[ELEM], requests2[ELEM], statuses[POS] are replaced by what they stand for
+    alias = {}
+
+    def sub_e(e):
+        if not isinstance(e, tuple):
+            return e
+        for form, canon in elem:
+            if e == form:
+                return ("id", canon)
+        for form, canon in pos:
+            if e == form:
+                return ("id", canon)
+        if e[0] == "id" and e[1] in alias:
+            return alias[e[1]]
+        if e[0] == "call":
+            return ("call", sub_e(e[1]), [sub_e(x) for x in e[2]])
+        if e[0] == "bin" and e[1] == "-":      # (it - v.begin()) carries a parenthesis-free key
+            r = ("bin", "-", sub_e(e[2]), sub_e(e[3]))
+            return r
+        return tuple(sub_e(x) if isinstance(x, tuple) else x for x in e)
+
+    def sub_s(x):
+        if x[0] == "expr":
+            return ("expr", sub_e(x[1]))
+        if x[0] == "if":
+            return ("if", sub_e(x[1]), sub_s(x[2]), sub_s(x[3]) if x[3] is not None else None)
+        if x[0] == "block":
+            return ("block", [sub_s(y) for y in x[1]])
+        if x[0] == "decl":
+            return x if x[2] is None else (x[0], x[1], sub_e(x[2])) + tuple(x[3:])
+        if x[0] == "return":
+            return ("return", sub_e(x[1]) if x[1] is not None else None)
+        raise TranslateError("checkAndContinue: statement '%s' outside the grammar in the loop body" % x[0])
+    allowed = {"ELEM", "POS", "%s[ELEM]" % TR, "%s[ELEM]" % BUF, "%s[ELEM]" % RQ2, "%s[POS]" % stv}
+    st = []
+    for q, x in enumerate(raw):
+        if _is_assert(x):
+            continue
+        if x[0] == "decl" and x[2] is not None:
+            v = sub_e(x[2])
+            ref = len(x) > 3 and x[3]
+            if key(v) not in allowed:
+                raise TranslateError("checkAndContinue: local '%s' = %s is outside the grammar" % (x[1], key(x[2])))
+            if x[1] in alias or any(x[1] == y for y in ps) or x[1] in (idx, stv, nc):
+                raise TranslateError("checkAndContinue: local '%s' shadows another name" % x[1])
+            if not ref and key(v) not in ("ELEM", "POS"):
+                raise TranslateError("checkAndContinue: '%s' is a copy of %s, not a reference" % (x[1], key(v)))
+            if not ref and any(_mods(y, x[1]) for y in raw[q + 1:]):
+                raise TranslateError("checkAndContinue: local '%s' is modified" % x[1])
+            alias[x[1]] = v
+            continue
+        st.append(sub_s(x))
+    if re.search(r"\b%s\b" % idx, _keys(st)) or (IT and re.search(r"\b%s\b" % IT, _keys(st))):
+        raise TranslateError("checkAndContinue: the loop body uses the completed list / the loop variable in another way")
+    T = "%s[ELEM]" % TR
+    sub = "ELEM"
+    want_status = ("&%s[POS]" % stv, "&(%s[POS])" % stv)
     BUFI, RQ2I = "%s[%s]" % (BUF, sub), "%s[%s]" % (RQ2, sub)
     env = Env({T + ".finished()": ("(trackerFinished t.index t.ifaceSize)", "bool"),
                T + ".indicesLeft()": ("(indicesLeft t.index t.ifaceSize)", "nat"),
@@ -1428,8 +1822,7 @@ def _check_and_continue(src, out):
                 cnt = x[1]
             elif x[0] == "expr" and x[1][0] == "call" and key(x[1][1]) == "MPI_Get_count":
                 aa = [key(y) for y in x[1][2]]
-                want = "&%s[(%s-%s.begin())]" % (stv, IT, idx)
-                if len(aa) != 3 or aa[0] != want or aa[1] != "MPITYPE" or cnt is None or aa[2] != "&" + cnt:
+                if len(aa) != 3 or aa[0] not in want_status or aa[1] != "MPITYPE" or cnt is None or aa[2] != "&" + cnt:
                     raise TranslateError("checkAndContinue: MPI_Get_count(%s) does not read the status at the position in the completed list" % ",".join(aa))
             elif x[0] == "expr" and x[1][0] == "call" and key(x[1][1]) == BF:
                 aa = [key(y) for y in x[1][2]]
@@ -1519,8 +1912,42 @@ def _progress_loops(src, out):
                 init[m.group(1)] = m.group(2)
         # fixed path: `for(.. i=X.begin() ..) if(i->empty()) --C;`
         red = {}
-        for m in re.finditer(r"=\s*(\w+)\s*\.\s*begin\s*\(\s*\)[^;]*;[^;]*;[^)]*\)\s*if\s*\(\s*\w+\s*->\s*empty\s*\(\s*\)\s*\)\s*--\s*(\w+)\s*;", body):
-            red[m.group(2)] = m.group(1)
+        DEC = r"(?:--\s*(\w+)|(\w+)\s*--|(\w+)\s*-=\s*1)\s*;"
+
+        def setred(m, vec, g0):
+            c = m.group(g0) or m.group(g0 + 1) or m.group(g0 + 2)
+            if c in red:
+                raise TranslateError("%s: counter %s reduced twice" % (fn, c))
+            red[c] = vec
+        # iterator loop
+        for m in re.finditer(r"\bfor\s*\([^;()]*?(\w+)\s*=\s*(\w+)\s*\.\s*begin\s*\(\s*\)[^;]*;\s*(\w+)\s*!=\s*(?:\w+|(\w+)\s*\.\s*end\s*\(\s*\))\s*;\s*(?:\+\+\s*(\w+)|(\w+)\s*\+\+)\s*\)\s*\{?\s*if\s*\(\s*(\w+)\s*->\s*empty\s*\(\s*\)\s*\)\s*\{?\s*" + DEC, body):
+            it = m.group(1)
+            if m.group(3) != it or (m.group(5) or m.group(6)) != it or m.group(7) != it or (m.group(4) and m.group(4) != m.group(2)):
+                raise TranslateError("%s: reduction loop over the trackers outside the grammar" % fn)
+            setred(m, m.group(2), 8)
+        # range-for
+        for m in re.finditer(r"\bfor\s*\(\s*(?:const\s+)?[\w:]+\s*(?:const\s*)?&?\s*(\w+)\s*:\s*(\w+)\s*\)\s*\{?\s*if\s*\(\s*(\w+)\s*\.\s*empty\s*\(\s*\)\s*\)\s*\{?\s*" + DEC, body):
+            if m.group(3) != m.group(1):
+                raise TranslateError("%s: reduction loop over the trackers outside the grammar" % fn)
+            setred(m, m.group(2), 4)
+        # index loop
+        for m in re.finditer(r"\bfor\s*\(\s*[\w:]+\s+(\w+)\s*=\s*0\s*;\s*(\w+)\s*(?:<|!=)\s*(\w+)\s*\.\s*size\s*\(\s*\)\s*;\s*(?:\+\+\s*(\w+)|(\w+)\s*\+\+)\s*\)\s*\{?\s*if\s*\(\s*(\w+)\s*\[\s*(\w+)\s*\]\s*\.\s*empty\s*\(\s*\)\s*\)\s*\{?\s*" + DEC, body):
+            k = m.group(1)
+            if m.group(2) != k or (m.group(4) or m.group(5)) != k or m.group(7) != k or m.group(6) != m.group(3):
+                raise TranslateError("%s: reduction loop over the trackers outside the grammar" % fn)
+            setred(m, m.group(3), 8)
+        # std::count_if with a predicate that is `t.empty()` (inline lambda, named lambda, std::mem_fn)
+        LAM = r"\[\s*\]\s*\(\s*(?:const\s+)?InterfaceTracker\s*(?:const\s*)?&\s*(\w+)\s*\)\s*(?:->\s*bool\s*)?\{\s*return\s+(\w+)\s*\.\s*empty\s*\(\s*\)\s*;\s*\}"
+        preds = {}
+        for m in re.finditer(r"\b(?:const\s+)?auto\s+(?:const\s+)?(\w+)\s*=\s*" + LAM + r"\s*;", body):
+            if m.group(2) == m.group(3):
+                preds[m.group(1)] = True
+        for m in re.finditer(r"\b(\w+)\s*-=\s*std\s*::\s*count_if\s*\(\s*(\w+)\s*\.\s*c?begin\s*\(\s*\)\s*,\s*(\w+)\s*\.\s*c?end\s*\(\s*\)\s*,\s*(?:(\w+)|" + LAM + r"|std\s*::\s*mem_fn\s*\(\s*&\s*InterfaceTracker\s*::\s*empty\s*\))\s*\)\s*;", body):
+            if m.group(2) != m.group(3) or (m.group(4) and m.group(4) not in preds) or m.group(5) != m.group(6):
+                raise TranslateError("%s: std::count_if reduction outside the grammar" % fn)
+            if m.group(1) in red:
+                raise TranslateError("%s: counter %s reduced twice" % (fn, m.group(1)))
+            red[m.group(1)] = m.group(2)
         wm = re.search(r"\bwhile\s*\(", body)
         if not wm:
             raise TranslateError("%s: progress loop not found" % fn)
@@ -1592,6 +2019,19 @@ def _progress(src, out):
             raise TranslateError("%s does not return checkAndContinue(..)" % fn)
         j = _match(body, mm.end() - 1, "(", ")")
         raw = body[mm.end():j]
+        # `const T x = e;` in front of the call: x stands for e (e must not mention an earlier local; nothing else may
+        # precede the call, so e is evaluated in the same state as the argument would be)
+        pre = body[:mm.start()]
+        locs = {}
+        for d in re.finditer(r"\s*const\s+[\w:]+\s+(\w+)\s*=\s*([^;]*);", pre):
+            locs[d.group(1)] = "(" + d.group(2).strip() + ")" if re.search(r"[-+*/%<>=&|?]", d.group(2)) and not re.fullmatch(r"\s*!?[\w:]+\s*(\([^()]*\))?\s*", d.group(2)) else d.group(2).strip()
+        if re.sub(r"\s*const\s+[\w:]+\s+(\w+)\s*=\s*([^;]*);", "", pre).strip() or body[j + 1:].strip() not in (";", ""):
+            raise TranslateError("%s: statements around the checkAndContinue call outside the grammar" % fn)
+        for nm, v in locs.items():
+            if any(re.search(r"\b%s\b" % re.escape(o), v) for o in locs):
+                raise TranslateError("%s: local '%s' depends on another local" % (fn, nm))
+        for nm, v in locs.items():
+            raw = re.sub(r"\b%s\b" % re.escape(nm), lambda _m, v=v: v, raw)
         raw = re.sub(r"<[^<>()]*>", "", raw)               # Functor<T>() -> Functor()
         raw = re.sub(r"\b(\w+)\s*\(\s*\)", r"\1", raw)   # Functor() -> Functor
         args = [re.sub(r"\s+", "", a) for a in _split(raw)]
